@@ -590,6 +590,24 @@ func (e *Exec) iterProg(op Op) {
 		e.fail("snapshot-error", "Snapshot: %v", err)
 	}
 	defer ss.Close()
+	e.runIterProgram(ss, want, op)
+}
+
+// snapIter runs an iterator program (with backward seeks) on a long-lived
+// snapshot handle against its frozen content; the handle stays open.
+func (e *Exec) snapIter(op Op) {
+	if op.N < 0 || op.N >= len(e.handles) {
+		return
+	}
+	h := e.handles[op.N]
+	if h.closed || h.it != nil || h.ss == nil {
+		return
+	}
+	e.runIterProgram(h.ss, h.want, op)
+	e.probe("handle-iterator-program")
+}
+
+func (e *Exec) runIterProgram(ss moss.Snapshot, want *Node, op Op) {
 	lo, hi := op.K, op.K2
 	var keys []string
 	for _, k := range want.SortedKeys() {
